@@ -204,7 +204,12 @@ func (h *H) c01Gen(depth int, budget *int, caps c01Caps, big *int, files *[]*c01
 				e.content = make([]byte, 1+h.Intn(1<<17))
 			case c < 17 && *big > 0: // multi-chunk (real chunker: 512 KiB .. 8 MiB)
 				*big--
-				e.content = h.Bytes(2<<20 + h.Intn(3<<20))
+				if h.Bool() {
+					e.content = h.Bytes(2<<20 + h.Intn(3<<20))
+				} else { // a block repeated: the same non-zero blob occurs at several offsets of one file
+					blk := h.Bytes(3<<19 + h.Intn(1<<20))
+					e.content = append(append(append([]byte(nil), blk...), blk...), blk[:h.Intn(len(blk))]...)
+				}
 			case c < 18 && *big > 0: // zeros: cut every 512 KiB, identical chunks (dedup inside one file)
 				*big--
 				e.content = make([]byte, 1<<20+h.Intn(1<<20))
